@@ -186,7 +186,7 @@ def planner_stage(chk):
 
 def run(tier, seed):
     chk = vflib.Check(PROP, tier, seed)
-    chk.assumptions = ["PROVED (model = coq/exp/Model/Display.v, Names.v; tie = K-disp, K-exp inside Coq): Display for MigrationAction is total for all actions (the RawSql arm cuts at the largest char boundary <= 47) and its text is the pre-fix one wherever that did not panic, in particular for ASCII; totality of the CLI's format_action model, non-termination of resolve_fk_target on single-column FK cycles and fuel-independence of its answer elsewhere",
+    chk.assumptions = ["PROVED (model = coq/exp/Model/Display.v, Names.v; tie = K-disp, K-exp inside Coq): Display for MigrationAction is total for all actions (the RawSql arm cuts at the largest char boundary <= 47) and its text is the pre-fix one wherever that did not panic, in particular for ASCII; totality of the CLI's format_action model, the FK-chain walk of the SeaORM exporter (resolve_fk_target with its visited set) ends on every slice, cycles included, and computing the declarations of a table never exhausts any fuel (resolve_fk_terminates, members_never_diverge)",
                        "PROVED for the planner model (coq/m1/Model/Diff.v, tied to plan_next_migration by K-diff in the M1 checks; pins in coq/m1/Properties/C16_planner.v): the two fuelled Kahn sorts never run out of fuel and diff_actions / plan_next can only fail with DiffTableValidation or DiffCycle — never with the panic or out-of-fuel outcome",
                        "PARTIAL: SQL generation for the three backends and the text rendering of the exporters are covered by the PanicSites discharge table (every unwrap / expect / panic! / unreachable! / slice / index / direct recursion of the non-test code of core, planner, query, loader, exporter, cli has a tagged entry; 7 query-builder entries are tagged unreviewed) and by the oracle O-C16 (catch_unwind, subprocess per batch, wall-clock cap per stage): tests, not proofs",
                        "format_action is private to the vespertide binary: its model is proved total but is not tied to the code by a correspondence (the CLI is not run by this check)",
